@@ -7,7 +7,7 @@ import ast
 import os
 from fractions import Fraction
 
-from .engine import Mismatch, need, fun_def, src
+from .engine import Mismatch, need, fun_def, src, code
 
 
 def const_q(tree, text, name):
@@ -30,7 +30,8 @@ def tr_close(tree):
     requires Y <> 0 (on float64 x / 0 is inf or nan and the comparison is False)."""
     f = fun_def(tree, "scalar_close")
     need([a.arg for a in f.args.args] == ["a", "b"], "scalar_close signature")
-    need(len(f.body) == 1 and isinstance(f.body[0], ast.Return), "scalar_close is not a single return")
+    fb = code(f.body)
+    need(len(fb) == 1 and isinstance(fb[0], ast.Return), "scalar_close is not a single return")
 
     def ex(e):
         if isinstance(e, ast.Name) and e.id in ("a", "b"):
@@ -50,7 +51,7 @@ def tr_close(tree):
             num, den = ex(l.left), ex(l.right)
             return "(negb (Qeq_bool %s 0) && qltb (%s / %s) %s)" % (den, num, den, ex(r))
         return "qltb %s %s" % (ex(l), ex(r))
-    v = f.body[0].value
+    v = fb[0].value
     need(isinstance(v, ast.BoolOp) and isinstance(v.op, ast.Or) and len(v.values) == 2, "scalar_close is not `c1 or c2`")
     return "(%s) || %s" % (cmp(v.values[0]), cmp(v.values[1]))
 
